@@ -152,6 +152,52 @@ func dencoStructural(c *Ctx, r2, r3, r4, r5 string) {
 		}
 		c.obRF(r2, bld, "strips-parameter-records", nStrip >= 2, "build consumes the parameter part of its records' keys", fmt.Sprintf("%d stores", nStrip))
 	}
+	// every record handed to Build is filed — in the static map or in the trie: none is passed over (an empty pattern is
+	// a pattern: Lookup("") has to find it)
+	if mr := p.FnOpt("rt/middleware/denco.makeRecords"); mr != nil && len(mr.Params) >= 1 {
+		isFiling := func(in ssa.Instruction) bool {
+			call, ok := in.(*ssa.Call)
+			return ok && calleeName(&call.Call) == "builtin append" && strings.HasSuffix(typeStr(call.Type()), "denco.record")
+		}
+		ls := sliceLoops(mr, vOrigins(oIsValue(mr.Params[0])))
+		c.obRF(r2, mr, "files-every-record", len(ls) >= 1, "makeRecords ranges over the records it is given", fmt.Sprintf("%d loops", len(ls)))
+		for _, l := range ls {
+			c.obI(r2, l.Test, "files-every-record", l.everyIteration(isFiling), "every record is appended to the static or to the parameterised list", "an iteration can skip both lists: that pattern is silently dropped and never found")
+		}
+	}
+	// the separator scan that ends a ':' parameter's name is used in the single-parameter case only: a wildcard's name
+	// runs to the end of the key (it may contain '/')
+	for _, ci := range callsIn(bld, "rt/middleware/denco.NextSeparator") {
+		if ci.Parent() != bld {
+			continue
+		}
+		isSibC := func(v ssa.Value) bool {
+			_, ok := fieldLoad(v, "rt/middleware/denco.sibling", "c")
+			if ok {
+				return true
+			}
+			okO, _ := allOrigins(v, oFieldLoad("rt/middleware/denco.sibling", "c", nil))
+			return okO
+		}
+		c.obI(r2, ci, "separator-scan-only-for-single-parameters", guardedBy(ci, nil, factEqInt(isSibC, int64(':'), true)), "NextSeparator cuts the name of a ':' parameter only; a '*' wildcard's name is everything up to the termination byte", "NextSeparator is applied outside the ':' case: a wildcard name containing '/' is truncated")
+	}
+	// a pattern set that cannot be laid out is REFUSED: the error of every step of build — each sibling's subtree
+	// included — ends the build (a later sibling's success never hides it: Lookup on a half-built array panics)
+	checkErrorsReturned(c, r2, bld, 0, nil)
+	for _, ci := range callsIn(bld, "(*rt/middleware/denco.doubleArray).build") {
+		rc, ok := ci.(*ssa.Call)
+		if !ok || rc.Parent() != bld {
+			continue
+		}
+		ev := errValueOf(rc)
+		for _, l := range sliceLoops(bld, nil) {
+			if !(l.Header.Dominates(rc.Block()) && reachableFrom(rc.Block(), l.Header)) {
+				continue
+			}
+			goesOn := ev == nil || pathExists(bld, rc, l.Test, factNil(errAlias(ev), true), nil)
+			c.obI(r2, rc, "failed-subtree-ends-the-build", !goesOn, "the loop over the siblings goes on to the next sibling only when the subtree just built reported no error", "the next sibling is built although this subtree's build failed: its error is overwritten by the later result")
+		}
+	}
 	fb := p.Fn("(*rt/middleware/denco.doubleArray).findBase")
 	used := fb.Params[3]
 	isUsed := func(v ssa.Value) bool {
